@@ -68,7 +68,8 @@ CHECKS = {
              "lists element-wise, dicts on every key given), subst_keeps_unspecified (absent dict keys keep schema, "
              "optionality and position), subst_accepts_value_partial ('if v conforms to S then S % v accepts v' for "
              "every schema without a choice point: no any with two or more alternatives, no [..., x, ...] list - "
-             "decidable predicate choice_free). The full clause is stated and "
+             "decidable predicate choice_free, evaluated inside Coq for the schema of every case: where it holds the "
+             "oracle accepts no known-finding excuse). The full clause is stated and "
              "REFUTED for the faithful model (subst_accepts_value_refuted: known findings F20/F25, witnesses replay on "
              "/repo); at choice points it is checked on /repo by the oracle. Proof is partial in that sense, and in "
              "that the generation clause is checked by the oracle on the real generator only. Tie: per-run comparison of "
@@ -204,7 +205,9 @@ CHECKS = {
              "generator is proved and soundness comes from C09) the model generator returns a value and the "
              "validator accepts it with zero errors. The "
              "property's wider quantifier (any schema admitting some value) is stated and REFUTED for the faithful "
-             "model (gen_sound_full_refuted: F24; F29 witness) - partial in that sense. Tie: the real generator under "
+             "model (gen_sound_full_refuted: F24; F29 witness) - partial in that sense. The hypothesis is decidable "
+             "(satb, proved equivalent to sat; gen_validates_decidable) and is evaluated inside Coq for every schema of "
+             "a run: where it holds no scripted tape may make the implementation fail. Tie: the real generator under "
              "tape policies all-min/all-max/alternating/random with a fixed world vs the model on the same tape (value, "
              "exception class, number of draws); tables of generator constants regenerated every run; oracle on /repo: "
              "validate(S, fake(S)) for satisfiable S (declared, combined with + and |, make_required, and produced by % "
